@@ -68,7 +68,7 @@ def run(ctx):
     ctx.cov["rule"] = ("behaviours = TLC -simulate runs of Payments.tla GenNext profile c04 (10 steps: pay 1-3 relays / epoch / block / "
                        "late block); non-trivial = at least two accepted payment transactions; distinct by full action list")
     if (cov["tx_ok"] < max(10, len(behs) // 2) or cov["relays_acc"] < 20 or cov["capped"] < 3 or cov["epoch"] < 5 or cov["down"] < 1
-            or cov["huge"] < 5):
+            or cov["huge"] < 5 or cov["bigdown"] < 3 or cov["late_claims"] < 1):
         raise vlib.Infra("vacuous coverage: %s" % cov)
 
     # which transcription does the code follow?  (drift otherwise)
